@@ -647,7 +647,7 @@ func (c *SpecCtx) call(x *ast.CallExpr) SVal {
 				}
 				return rec.args[i]
 			default:
-				if rec == nil {
+				if rec == nil || rec.snap == nil {
 					fv.noRecord = fid.Name
 					return c.tr(x.Args[1])
 				}
